@@ -1,5 +1,6 @@
 import rogw.tranp.semantics.reflection.definition as refs
 import rogw.tranp.syntax.node.definition as defs
+from rogw.tranp.errors import Errors
 from rogw.tranp.lang.annotation import duck_typed, injectable
 from rogw.tranp.lang.convertion import as_a
 from rogw.tranp.lang.locator import Invoker
@@ -108,6 +109,9 @@ class ResolveUnknown:
 
 		index = decl_vars.index(var_raw.decl)
 		actual_value_raw = value_raw.attrs[0] if value_raw.types.is_a(defs.AltClass) else value_raw
+		if index >= len(actual_value_raw.attrs):
+			raise Errors.OperationNotAllowed(value_node, f'Not enough types to unpack. targets: {len(decl_vars)}, types: {len(actual_value_raw.attrs)}')
+
 		return var_raw.declare(var_raw.node.as_a(defs.Declable), actual_value_raw.attrs[index])
 
 	@injectable
